@@ -4,6 +4,9 @@ import json, subprocess
 
 CHECKS = {
  # id: (level, technique, level text, level note, design ref)
+ "C01": ("exploration", "PBT over generated thread programs with shaped schedules (rendezvous inside the harness loader, spin barriers), invariants over the joined history (pointer identity, ticket-ordered presence, drop ledger)",
+         "2..8 threads run generated programs on overlapping keys through AssetCache and its AnyCache view; loaders that passed the miss wait for each other so simultaneous misses are forced; growth by up to 300000 unrelated insertions; shard counts 4/8/16/64; thorough repeats under parking_lot and std hashing. Invariants: one pointer and one value per key, presence never flips back, exactly the winner alive in the ledger, retained handles still valid after growth.",
+         "schedules are shaped and sampled, not enumerated; pointer validity after growth is observed through reads under a poisoning allocator", "4/C01"),
  "C02": ("exploration", "model-based stateful PBT: BTreeMap reference model, bounded-exhaustive op sequences + random sequences, six front-ends differentially",
          "Every op sequence up to length 2 (quick) / 3 (thorough) over a 58-op alphabet is enumerated and random sequences up to length 30/60 are generated; each runs on six front-ends and every return value plus a final full scan is compared with a map model written from the statement.",
          "trusts the reference model (about 100 lines); single-threaded histories only (C01 covers races)", "4/C02"),
